@@ -20,12 +20,24 @@ OUT = os.environ.get('PMC_OUT', VERIF)
 CASE_TIMEOUT_S = int(os.environ.get('PMC_CASE_TIMEOUT_S', '300'))
 
 
-class CaseTimeout(Exception):
-    pass
+class CaseTimeout(BaseException):
+    """not an Exception: a harness 'except Exception' around the code under test must not swallow it"""
+
+    def __init__(self, where=None):
+        super().__init__(where)
+        self.where = where
 
 
 def _alarm(signum, frame):
-    raise CaseTimeout()
+    # which code was running when the limit was reached: the innermost frame that belongs to the code under test
+    where = None
+    for f in [frame] + list(sys._current_frames().values()):   # some harnesses run the case in a helper thread
+        while f is not None and where is None:
+            fn = os.path.realpath(f.f_code.co_filename)
+            if fn.startswith(REPO_PKG):
+                where = f"{os.path.relpath(fn, REPO_PKG)}:{f.f_code.co_name}"
+            f = f.f_back
+    raise CaseTimeout(where)
 
 
 def jdefault(o):
@@ -79,11 +91,23 @@ def own_diagnostics():
     co.get_init_str = lambda: 'pmc'
 
 
+def limit_memory():
+    """a runaway allocation in the code under test becomes a MemoryError there (reported like any other exception raised
+    by it) instead of exhausting the machine"""
+    try:
+        import resource
+        lim = int(os.environ.get('PMC_MEM_GB', '12')) << 30
+        resource.setrlimit(resource.RLIMIT_AS, (lim, lim))
+    except Exception:  # noqa
+        pass
+
+
 def _init_worker(modname):
     global _MOD
     import warnings
     warnings.simplefilter('ignore')
     _MOD = importlib.import_module(modname)
+    limit_memory()
     import pymoto
     assert os.path.realpath(pymoto.__file__).startswith(REPO_PKG), pymoto.__file__
     own_diagnostics()
@@ -119,7 +143,12 @@ def execute_guarded(mod, case):
         finally:
             signal.setitimer(signal.ITIMER_REAL, 0)
         return normalise_outcome(out, case)
-    except CaseTimeout:
+    except CaseTimeout as e:
+        if e.where:
+            # the code under test had not returned from one call after CASE_TIMEOUT_S seconds (cases take seconds at most)
+            return normalise_outcome({'violations': [{
+                'check': 'no_return', 'signature': {'check': 'no_return', 'where': e.where},
+                'detail': {'limit_s': CASE_TIMEOUT_S, 'note': 'a call into the code under test did not return'}}]}, case)
         return normalise_outcome({'harness_error': f'case exceeded {CASE_TIMEOUT_S}s', 'violations': []}, case)
     except Exception as e:  # noqa
         in_repo, where = classify_exception(e)
